@@ -362,7 +362,8 @@ def run_case(ctx, case):
                 ctx.count("stopped_by_convergence")
             else:
                 ctx.count("stopped_by_limit")
-        elif n < case["max_samples"] and n < min(case["min_samples"], case["max_samples"]):
+        elif n < case["max_samples"] and n < min(case["min_samples"], case["max_samples"]) and \
+                not (case.get("interrupt_at") and attempts[0] >= case["interrupt_at"]):        # (an interrupt may stop earlier)
             bad.append("stopped after %d samples, fewer than min_samples=%d" % (n, case["min_samples"]))
         for msg in bad[:2]:
             ctx.violation(case, msg, dict(sig, oracle="estimate", what=msg.split(" ")[0]))
